@@ -212,6 +212,30 @@ def limit(ctx, fb, T):
         ctx.inst(R, 'check_has_bytes:no-plain-arithmetic', not [1 for a in f.asserts() if a[1].startswith('Overflow')], 'no overflow-checked (wrapping in release) arithmetic in check_has_bytes', f.loc())
 
     # who may construct LimitReader
+    # "field lengths larger than the remaining input are errors": sub_limit *clamps* (it cannot fail), so the header
+    # reader Fields::next must test the length of a LEN field against the enclosing limit before the field exists
+    fn_next = fb.fn('rten_onnx::protobuf::field::Fields::<\'r, R>::next')
+    if ctx.anchor(R, 'fn Fields::next', fn_next is not None and fn_next.has_mir()):
+        ok, where = False, fn_next.loc()
+        for q in fb.with_closures(fn_next.path):
+            h = fb.fn(q)
+            if h is None or not h.has_mir():
+                continue
+            lens = [(i, st) for i, b in enumerate(h.bbs) if not b.get('c') and i in h.live() for st in b['s']
+                    if st[0] == '=' and st[2][0] == 'agg' and st[2][3] == 'Len']
+            chk = [c for c in h.calls() if (c.callee or '').endswith('LimitReader::<\'a, R>::check_has_bytes')]
+            for (i, st) in lens:
+                where = h.loc()
+                for c in chk:
+                    # same value checked and wrapped; the Len(..) is built only on the success side of the check
+                    same = bool(h.origins(c.args[1]) & h.origins(st[2][4][0])) if st[2][4] else False
+                    succ_side = h.dominates(c.bb, i) and any(gd.bb != c.bb and h.dominates(c.bb, gd.bb) for gd in h.guards(i))
+                    if same and succ_side:
+                        ok = True
+        ctx.inst(R, 'field-length-within-enclosing-limit', ok,
+                 'FieldValue::Len(len) is produced only after check_has_bytes(len) succeeded against the enclosing message limit' if ok else
+                 'a length-delimited field is accepted without testing its length against the enclosing limit: sub_limit() silently clamps, so an embedded message / packed field claiming more bytes than remain is decoded from the bytes available instead of being an error', where)
+
     aggs = aggregates_of(fb, LR, crates={CRATE})
     ctx.floor(R, 'LimitReader construction sites', len(aggs), 2)
     adt = fb.adt(LR)
@@ -319,8 +343,20 @@ def alloc(ctx, fb, fns, T):
                     if g.path.startswith(LR_IMPL) or (cc.callee and cc.callee.startswith(LR_IMPL)):
                         continue
                     bad.append(g.path)
+                # ... and that check only means something when the end of the input is known: the allocation sits under
+                # a `self.end` is Some(..) test (with an unknown end the buffer must grow with the data actually read)
+                end_known = False
+                for g in f.guards(c.bb):
+                    cd = g.cond()
+                    if cd[0] == 'call' and re.search(r'Option::<T>::is_some$', cd[1].callee or '') and g.truth() is True and \
+                            any(o[0] == 'param' and o[1] == 0 and len(o) > 2 and o[2] and str(o[2][0]) == 'end' for o in f.origins(cd[1].args[0])):
+                        end_known = True
+                    if cd[0] == 'disc' and isinstance(cd[1], list) and any(isinstance(e, list) and e[0] == 'f' and str(e[2]) == 'end' for e in cd[1][1:]) and (g.vals == [1] or (g.vals is None and g.excluded == [0])):
+                        end_known = True
+                if not end_known:
+                    bad.append('(allocation not under a `self.end.is_some()` test: with an unknown input length check_has_bytes cannot bound len)')
                 ok = not bad
-                why = 'len is the parameter of ValueReader::read_bytes; all workspace callers reach it through LimitReader (check_has_bytes(len) <= end of input, C38.limit)' if ok else 'read_bytes/read_string called on an unlimited reader from %s' % bad[:3]
+                why = 'len is the parameter of ValueReader::read_bytes; all workspace callers reach it through LimitReader (check_has_bytes(len) <= end of input, C38.limit) and the allocation is made only when the end of the input is known' if ok else 'read_bytes/read_string called on an unlimited reader from %s' % bad[:3]
             else:
                 r = reviewed(T, 'alloc_reviewed', f, what)
                 if r:
